@@ -72,7 +72,10 @@ Definition chk_eval (c : ecase) : list N :=
    | Some g, Some o =>
      if tree_eqb t' g then [] else
      let '(_, _, gout) := o in
-     if mres_eqb (res_to_mres (snd (trysem fetch test_custom cached t'))) gout then [] else [16%N]
+     match res_to_mres (snd (trysem fetch test_custom cached t')), gout with
+     | MVal x, MVal y => if value_eqb x y then [] else [16%N]     (* both answer (a value or DNE) and differ *)
+     | _, _ => []
+     end
    | _, _ => [] end) ++
   (* 2: capacity decision (of Go's own optimised tree when available) *)
   (let tt := match ec_opt c with Some g => g | None => t' end in
